@@ -3,6 +3,7 @@
     harness carries both in the metadata of the real messages).  The handler of stage s
     returns [fan s lineage] outputs; output j of (l, p) is (l, p ++ [j]). *)
 From WM Require Import Base.Prelude Message.Model Handler.RouterHandle Pipeline.Model Pipeline.ImmModel Pipeline.CtxModel.
+From WM Require Router.Wiring Router.WiringSpec.
 
 Definition cm := (N * list N)%type.
 Definition cm_eqb (a b : cm) : bool := N.eqb (fst a) (fst b) && list_eqb N.eqb (snd a) (snd b).
@@ -27,7 +28,10 @@ Record c01_case := C01 {
   q_log : list (delivery cm);        (* what the implementation did, in order of handler entry *)
   q_sink : list cm;                  (* arrivals at the final topic *)
   q_quiet : bool;                    (* the implementation became quiescent (nothing pending) *)
-  q_ctx : list (list bool)           (* per stage and call: the delivered copy's context was live at handler entry *)
+  q_ctx : list (list bool);          (* per stage and call: the delivered copy's context was live at handler entry *)
+  (* per delivery attempt: the middleware registrations of the stage's Router (in registration
+     order), the name of the stage's handler, the ids of the middlewares that were entered *)
+  q_mws : list (list Wiring.mwreg * N * list N)
 }.
 
 Definition hevent_eqb (a b : hevent cm) : bool :=
@@ -93,6 +97,15 @@ Definition c01_not_immediate (c : c01_case) : bool := negb (immediate_ok cm_eqb 
     say: never, for a subscription that is not closing) - for a context-aware stage that is a fault *)
 Definition c01_dead_ctx (c : c01_case) : bool := negb (all_live (q_ctx c)).
 
+(** middleware ownership (C09): a stage's call runs exactly the router-level middlewares and the
+    stage's OWN handler-level middlewares, in registration order ([WiringSpec.effective], the
+    function of [C09_chain_membership] / [C09_nesting]) - never those of another handler of the
+    same Router, whatever that handler's name is (the empty name included) *)
+Definition mw_own_ok (e : list Wiring.mwreg * N * list N) : bool :=
+  let '(regs, name, ran) := e in
+  list_eqb N.eqb ran (map Wiring.r_id (WiringSpec.effective name regs)).
+Definition c01_foreign_mw (c : c01_case) : bool := negb (forallb mw_own_ok (q_mws c)).
+
 Definition c01_mismatches (cs : list c01_case) : list (nat * nat) :=
   filter (fun p => negb (Nat.eqb (snd p) 0)) (combine (seq 0 (length cs)) (map c01_mismatch cs)).
 Definition c01_log_violations (cs : list c01_case) : list nat := positions (map c01_log_bad cs).
@@ -100,6 +113,7 @@ Definition c01_invented_violations (cs : list c01_case) : list nat := positions 
 Definition c01_lost_violations (cs : list c01_case) : list nat := positions (map c01_lost cs).
 Definition c01_immediate_violations (cs : list c01_case) : list nat := positions (map c01_not_immediate cs).
 Definition c01_dead_ctx_violations (cs : list c01_case) : list nat := positions (map c01_dead_ctx cs).
+Definition c01_foreign_mw_violations (cs : list c01_case) : list nat := positions (map c01_foreign_mw cs).
 Definition c01_redelivery_violations (cs : list c01_case) : list nat := positions (map c01_not_redelivered cs).
 (** first logged delivery the monitor rejects (for the report) *)
 Definition c01_first_bad (c : c01_case) : list nat :=
